@@ -18,12 +18,15 @@ import (
 	sdk "github.com/cosmos/cosmos-sdk/types"
 	authtypes "github.com/cosmos/cosmos-sdk/x/auth/types"
 	govtypes "github.com/cosmos/cosmos-sdk/x/gov/types"
+	transfertypes "github.com/cosmos/ibc-go/v8/modules/apps/transfer/types"
 	clienttypes "github.com/cosmos/ibc-go/v8/modules/core/02-client/types"
+	channeltypes "github.com/cosmos/ibc-go/v8/modules/core/04-channel/types"
 	commitmenttypes "github.com/cosmos/ibc-go/v8/modules/core/23-commitment/types"
 	ibctm "github.com/cosmos/ibc-go/v8/modules/light-clients/07-tendermint"
 
 	"github.com/dymensionxyz/dymension/v3/app/apptesting"
 	commontypes "github.com/dymensionxyz/dymension/v3/x/common/types"
+	datypes "github.com/dymensionxyz/dymension/v3/x/delayedack/types"
 	rollappkeeper "github.com/dymensionxyz/dymension/v3/x/rollapp/keeper"
 	rollapptypes "github.com/dymensionxyz/dymension/v3/x/rollapp/types"
 	seqtypes "github.com/dymensionxyz/dymension/v3/x/sequencer/types"
@@ -315,6 +318,27 @@ func (h *coreH) exec(line string) string {
 			return nil
 		})
 		return okErr(err)
+	case "packet":
+		// C03: a pending delayed packet of the rollapp with the given proof height (stored the way the
+		// delayedack middleware stores it); what the fork hooks do with it is observed under pk=
+		ri, id := h.rollapp(f[1])
+		if _, ok := app.RollappKeeper.GetRollapp(h.f.Ctx, id); !ok || ri < 0 {
+			return "err"
+		}
+		typ := map[string]commontypes.RollappPacket_Type{"R": commontypes.RollappPacket_ON_RECV, "A": commontypes.RollappPacket_ON_ACK, "T": commontypes.RollappPacket_ON_TIMEOUT}[m["t"]]
+		data := transfertypes.NewFungibleTokenPacketData("adym", "1", Actor(98).String(), Actor(97).String(), "")
+		pkt := channeltypes.NewPacket(data.GetBytes(), atou(m["seq"]), "transfer", "channel-0", "transfer", "channel-0", clienttypes.NewHeight(1, 1000000), 0)
+		rp := commontypes.RollappPacket{RollappId: id, Packet: &pkt, Status: commontypes.Status_PENDING, Type: typ, ProofHeight: atou(m["ph"])}
+		who := data.Receiver
+		if typ != commontypes.RollappPacket_ON_RECV {
+			who = data.Sender
+		}
+		err := h.f.Try(func(ctx sdk.Context) error {
+			app.DelayedAckKeeper.SetRollappPacket(ctx, rp)
+			app.DelayedAckKeeper.MustSetPendingPacketByAddress(ctx, who, rp.RollappPacketKey())
+			return nil
+		})
+		return okErr(err)
 	case "fund":
 		_, a := h.actor(f[1])
 		h.f.Fund(a, sdk.NewCoin(coreDenom, math.NewIntFromUint64(atou(m["amt"]))))
@@ -461,32 +485,32 @@ func (h *coreH) exec(line string) string {
 // ---- snapshot of the observable state --------------------------------------------------------
 
 type coreState struct {
-	Creator, Next           int // Next: -1 empty, -2 sentinel
-	Start, Num, CH          uint64
-	Final                   bool
-	NBds, LastBdH, LastDrs  uint64
-	LastHasTs               bool
+	Creator, Next          int // Next: -1 empty, -2 sentinel
+	Start, Num, CH         uint64
+	Final                  bool
+	NBds, LastBdH, LastDrs uint64
+	LastHasTs              bool
 }
 
 type coreRa struct {
-	Exists                 bool
-	Launched               bool
-	Tph                    uint64
-	Revs                   [][2]uint64
-	LastFin, Latest        uint64
-	EvH, CdStart           int64
-	Prop, Succ             int // -1 = sentinel
-	States                 []coreState
-	ByHeight               map[uint64]uint64
-	Probes                 []uint64
+	Exists          bool
+	Launched        bool
+	Tph             uint64
+	Revs            [][2]uint64
+	LastFin, Latest uint64
+	EvH, CdStart    int64
+	Prop, Succ      int // -1 = sentinel
+	States          []coreState
+	ByHeight        map[uint64]uint64
+	Probes          []uint64
 }
 
 type coreSeq struct {
-	Ra                  int
-	Bonded, OptedIn     bool
-	Tokens              math.Int
-	Dishonor            uint64
-	Notice              int64 // ns since BaseTime, -1 = none
+	Ra              int
+	Bonded, OptedIn bool
+	Tokens          math.Int
+	Dishonor        uint64
+	Notice          int64 // ns since BaseTime, -1 = none
 }
 
 type coreSnap struct {
@@ -501,6 +525,13 @@ type coreSnap struct {
 	Mod    math.Int
 	Bal    []math.Int
 	Supply math.Int
+	Pk     []corePk // pending delayed packets of the rollapps
+}
+
+type corePk struct {
+	Ra      int
+	Ph, Seq uint64
+	T       string
 }
 
 func (h *coreH) aidx(addr string) int {
@@ -623,6 +654,26 @@ func (h *coreH) snapshot() *coreSnap {
 		s.Bal = append(s.Bal, app.BankKeeper.GetBalance(ctx, a, coreDenom).Amount)
 	}
 	s.Supply = app.BankKeeper.GetSupply(ctx, coreDenom).Amount
+	for _, pk := range app.DelayedAckKeeper.ListRollappPackets(ctx, datypes.ByStatus(commontypes.Status_PENDING)) {
+		ri, ok := h.raIdx[pk.RollappId]
+		if !ok {
+			continue
+		}
+		s.Pk = append(s.Pk, corePk{Ra: ri, Ph: pk.ProofHeight, Seq: pk.Packet.Sequence, T: map[commontypes.RollappPacket_Type]string{commontypes.RollappPacket_ON_RECV: "R", commontypes.RollappPacket_ON_ACK: "A", commontypes.RollappPacket_ON_TIMEOUT: "T"}[pk.Type]})
+	}
+	sort.Slice(s.Pk, func(i, j int) bool {
+		a, b := s.Pk[i], s.Pk[j]
+		if a.Ra != b.Ra {
+			return a.Ra < b.Ra
+		}
+		if a.Ph != b.Ph {
+			return a.Ph < b.Ph
+		}
+		if a.Seq != b.Seq {
+			return a.Seq < b.Seq
+		}
+		return a.T < b.T
+	})
 	return s
 }
 
@@ -726,6 +777,13 @@ func (s *coreSnap) render(res string) string {
 			sb.WriteByte(',')
 		}
 		sb.WriteString(b.String())
+	}
+	sb.WriteString(" | pk=")
+	for i, p := range s.Pk {
+		if i > 0 {
+			sb.WriteByte(',')
+		}
+		fmt.Fprintf(&sb, "r%d:%d:%d:%s", p.Ra, p.Ph, p.Seq, p.T)
 	}
 	return sb.String()
 }
